@@ -187,9 +187,9 @@ static void prop_mixed_block(Tape &t, Ctx &c) {
 
 static std::vector<Prop> props() {
     return {
-        Prop("mixed", prop_mixed, 150, 2500, 100, 300, {1}, 3, 8),
+        Prop("mixed", tolerate_breakdown(prop_mixed), 150, 2500, 100, 300, {1}, 3, 8),
         Prop("mixed_kernels", prop_mixed_kernels, 300, 5000, 100, 60, {1}, 2, 8),
-        Prop("mixed_block", prop_mixed_block, 150, 2500, 100, 60, {1}, 1, 4),
+        Prop("mixed_block", tolerate_breakdown(prop_mixed_block), 150, 2500, 100, 60, {1}, 1, 4),
     };
 }
 static std::vector<Enum> enums() { return {}; }
